@@ -334,6 +334,49 @@ func fileIds(r *mc.Run) {
 		oneFileIdString(r, s)
 	}
 	r.Sample("file-id", w{"volume": 1, "key": "0x100", "cookie": 1, "string": needle.NewFileId(1, 0x100, 1).String()})
+	fileIdDeltas(r)
+}
+
+// fileIdDeltas: the "<key><cookie>_<n>" form handed to clients for the n-th id of a
+// multi-count assignment (operation.SubmitFiles writes the index in decimal) must
+// decode to key+n with the same cookie; a suffix that is not a decimal number is
+// not a valid encoding.
+func fileIdDeltas(r *mc.Run) {
+	keys := []uint64{1, 0xff, 0x100, 0xffffffff, 1 << 32, 0x0100000000000000}
+	cookies := []uint32{0, 1, 0xffffffff}
+	deltas := []uint64{0, 1, 9, 10, 11, 15, 16, 17, 25, 99, 100, 101, 255, 256, 1000, 65535, 65536, 1 << 32}
+	if r.Thorough() {
+		for d := uint64(0); d < 4096; d++ {
+			deltas = append(deltas, d)
+		}
+	}
+	for _, k := range keys {
+		for _, c := range cookies {
+			base := needle.NewFileId(1, k, c).GetNeedleIdCookie()
+			for _, d := range deltas {
+				in := base + "_" + strconv.FormatUint(d, 10)
+				n := new(needle.Needle)
+				err := n.ParsePath(in)
+				r.Case(fmt.Sprintf("fid-delta|keybytes=%d|digits=%d|ok=%v", keyBytes(k), len(strconv.FormatUint(d, 10)), err == nil))
+				if err != nil || uint64(n.Id) != k+d || uint32(n.Cookie) != c {
+					cls := "one-digit"
+					if d >= 10 {
+						cls = "several-digits"
+					}
+					r.Violate("file-id-delta-roundtrip:"+cls, fmt.Sprintf("ParsePath(%q) = id %x cookie %x err %v, want id %x cookie %x", in, uint64(n.Id), uint32(n.Cookie), err, k+d, c), w{"domain": "file-id", "in": in}, nil)
+				}
+			}
+			for _, bad := range []string{"a", "1f", "f", "0x1", "-1", "+1", " 1", "1 ", "1.0", "18446744073709551616"} {
+				in := base + "_" + bad
+				n := new(needle.Needle)
+				err := n.ParsePath(in)
+				r.Case(fmt.Sprintf("fid-delta-bad|%s|rejected=%v", bad, err != nil))
+				if err == nil {
+					r.Violate("file-id-delta-accepts-non-decimal", fmt.Sprintf("ParsePath(%q) accepted: id %x cookie %x", in, uint64(n.Id), uint32(n.Cookie)), w{"domain": "file-id", "in": in}, nil)
+				}
+			}
+		}
+	}
 }
 
 func keyBytes(k uint64) int {
